@@ -19,3 +19,5 @@ MUTANTS = [
     dict(name="raw-dict-fallback-for-any-str-keyed-dict", file="core/cattrs_converter.py", expect="R16.8",
          old="            if dict_args == (str, Any):", new="            if dict_args and (dict_args[0] is str or dict_args[1] is Any):"),
 ]
+MUTANTS.append(dict(name="unstructure-fn-memoised-on-class-inherited-lookup", file="core/cattrs_converter.py", expect="R16.9",
+    old='                return _make_dataclass_unstructure_fn(captured_cls)(obj)\n', new='                fn = getattr(captured_cls, "_cattrs_unstructure_fn", None)\n                if fn is None:\n                    fn = _make_dataclass_unstructure_fn(captured_cls)\n                    setattr(captured_cls, "_cattrs_unstructure_fn", fn)\n                return fn(obj)\n'))
